@@ -7,6 +7,8 @@ import (
 	"reflect"
 	"strings"
 	"unsafe"
+
+	"github.com/xinchentechnote/fin-proto-go/codec"
 )
 
 // Codec is what every generated message type implements.
@@ -428,6 +430,10 @@ func drawCfg(t *Tape, thorough bool) GenCfg {
 type Gen struct {
 	t   *Tape
 	cfg GenCfg
+	// late registration: values of type lateFor carry this key (registered at run time, selecting
+	// an existing body type) instead of a pinned one
+	late    *TableKey
+	lateFor string
 }
 
 func prefixMax(w int) int {
@@ -702,6 +708,9 @@ func (g *Gen) fill(rv reflect.Value, ts *TypeSchema) {
 	if ts.Table != "" {
 		tb := schema.Tables[ts.Table]
 		key = &tb.Keys[g.t.Intn(len(tb.Keys))]
+		if g.late != nil && ts.Name == g.lateFor {
+			key = g.late
+		}
 	}
 	g.fillWithKey(rv, ts, key)
 }
@@ -741,7 +750,7 @@ func (g *Gen) fillWithKey(rv reflect.Value, ts *TypeSchema, key *TableKey) {
 				r := b.next()
 				setBits(sl.Index(j), numBitsFor(ek, 0, int(r%9), b.next()))
 			}
-			fv.Set(sl)
+			setList(fv, sl)
 		case "fixstrlist":
 			n := g.count(f.Prefix)
 			if n == 0 && g.t.Intn(2) == 0 {
@@ -758,7 +767,7 @@ func (g *Gen) fillWithKey(rv reflect.Value, ts *TypeSchema, key *TableKey) {
 					sl[j] = bulkFixText(b, g, f.Width, byte(f.Pad), f.PadLeft)
 				}
 			}
-			fv.Set(reflect.ValueOf(sl))
+			setList(fv, reflect.ValueOf(sl))
 		case "strlist":
 			n := g.count(f.Prefix)
 			if n == 0 && g.t.Intn(2) == 0 {
@@ -783,7 +792,7 @@ func (g *Gen) fillWithKey(rv reflect.Value, ts *TypeSchema, key *TableKey) {
 					sl[j] = string(s)
 				}
 			}
-			fv.Set(reflect.ValueOf(sl))
+			setList(fv, reflect.ValueOf(sl))
 		case "objlist":
 			n := g.count(f.Prefix)
 			if n > 2000 {
@@ -815,7 +824,7 @@ func (g *Gen) fillWithKey(rv reflect.Value, ts *TypeSchema, key *TableKey) {
 				}
 			}
 			g.cfg = saved
-			fv.Set(sl)
+			setList(fv, sl)
 		case "obj":
 			if fv.Kind() == reflect.Ptr {
 				ename := typeNameOfType(fv.Type())
@@ -1189,4 +1198,68 @@ func dictWord(t *Tape, limit int) string {
 	}
 	ps := collisionPairs[collisionLens[t.Intn(k)]]
 	return ps[t.Intn(len(ps))][t.Intn(2)]
+}
+
+// setList stores a generated list in a message field.  When the message came from the library's
+// constructor and its field already has spare capacity, the elements are appended to it, as an
+// application filling a constructed message would do.
+func setList(fv, sl reflect.Value) {
+	if ctorMode && fv.Len() == 0 && fv.Cap() > 0 {
+		fv.Set(reflect.AppendSlice(fv, sl))
+		return
+	}
+	fv.Set(sl)
+}
+
+// lateRegister registers, through the table's exported registration function, a key that the
+// pinned table does not have, selecting the body type of an existing key; values of type name
+// generated by g afterwards carry that key.  It reports whether name has a table.
+func lateRegister(c *RunCtx, g *Gen, name string) bool {
+	ts := schema.Types[name]
+	if ts == nil || ts.Table == "" {
+		return false
+	}
+	reg := tableRegister[ts.Table]
+	tb := schema.Tables[ts.Table]
+	if reg == nil || tb == nil {
+		return false
+	}
+	base := tb.Keys[g.t.Intn(len(tb.Keys))]
+	ctor := typeCtors[base.Type]
+	var key any
+	switch tb.KeyType {
+	case "string":
+		w := 3
+		for i := range ts.Fields {
+			if ts.Fields[i].Name == ts.Discriminator && ts.Fields[i].Width > 0 {
+				w = ts.Fields[i].Width
+			}
+		}
+		b := make([]byte, w)
+		b[0] = 'Z'
+		for i := 1; i < w; i++ {
+			b[i] = byte('A' + g.t.Intn(26))
+		}
+		key = string(b)
+	case "uint32":
+		key = uint32(0x7F000000 + g.t.Intn(1<<20))
+	case "uint16":
+		key = uint16(0x7F00 + g.t.Intn(255))
+	default:
+		return false
+	}
+	for _, k := range tb.Keys {
+		if k.Key == key {
+			return false
+		}
+	}
+	reg(key, func() codec.BinaryCodec {
+		v, _ := ctor().(codec.BinaryCodec)
+		return v
+	})
+	g.late = &TableKey{Key: key, Type: base.Type}
+	g.lateFor = name
+	c.Fire("cfg.late-registration")
+	c.Logf("CONFIGURATION: the application registered %v -> %s in table %s at run time", key, base.Type, ts.Table)
+	return true
 }
